@@ -767,6 +767,10 @@ def check_reward_terms(s):
         r = P.resolve_method(ci, "transition_info")
         loc = P.loc(r[0].module, r[1])
         lps = live(lb.paths(r[1], Ctx(r[0].module, r[0], r[1], ci), {"state": st0, "next_state": st1}, max_paths=64))
+        if len(lps) > 1:
+            # a configuration flag splits the method statically: the paths are merged back into one value (the selection pushed into
+            # the terms that differ), so a term that depends on the flag where the reference's does not shows as such
+            lps = [one(lps, f"{cls}.transition_info")]
         if len(lps) != 1 or lps[0].ret[0] != "dict":
             raise AnalysisError(f"{cls}.transition_info: expected one path returning a dict literal")
         lterms = {k[1]: v for k, v in lps[0].ret[1] if k[0] == "const"}
